@@ -356,8 +356,11 @@ Definition wf_ufo (m : lfs) (t : path) : Prop :=
 (** * Effect-order skeleton (compared with the source by Anchors/AnchorsOK_C17.v) *)
 Definition guard_of (s : ldstep) : string :=
   match s with
-  | LdLib => "request.lib" | LdGroups => "request.groups" | LdKerning => "request.kerning"
-  | LdFeatures => "request.features" | LdData => "request.data" | LdImages => "request.images"
+  | LdLib => "request.lib && lib_path.exists()" | LdGroups => "request.groups && groups_path.exists()"
+  | LdKerning => "request.kerning && kerning_path.exists()"
+  | LdFeatures => "request.features && features_path.exists()"
+  | LdData => "request.data && path.join(DATA_DIR).exists()"
+  | LdImages => "request.images && path.join(IMAGES_DIR).exists()"
   | _ => ""
   end.
 Definition skel_ld (s : ldstep) : list (string * string) :=
@@ -374,7 +377,7 @@ Definition skel_ld (s : ldstep) : list (string * string) :=
   | LdData => [("guard", guard_of LdData); ("exists", DATA_DIR); ("open_store", DATA_DIR); ("err", "DataStore")]
   | LdImages => [("guard", guard_of LdImages); ("exists", IMAGES_DIR); ("open_store", IMAGES_DIR); ("err", "ImagesStore")]
   | LdUpconvert => [("err", "GroupsUpconversionFailure")]
-  | LdRobofab => [("guard", "format_version==V1"); ("exists", LIB_FILE);
+  | LdRobofab => [("guard", "meta.format_version == FormatVersion::V1 && lib_path.exists()"); ("exists", LIB_FILE);
                   ("call", "upconvert_ufov1_robofab_data " +:+ LIB_FILE)]
   end.
 Definition load_skeleton : list (string * string) := concat (map skel_ld load_steps).
@@ -385,12 +388,12 @@ Definition load_groups_skeleton := [("read_plist", ""); ("err", "ParsePlist"); (
 Definition load_kerning_skeleton := [("read_plist", ""); ("err", "ParsePlist")].
 Definition load_features_skeleton := [("read", ""); ("err", "FeatureFile")].
 Definition load_layer_set_skeleton :=
-  [("guard", "format_version==V3"); ("exists", LAYER_CONTENTS_FILE); ("err", "MissingLayerContentsFile");
+  [("guard", "meta.format_version == FormatVersion::V3 && !layercontents_path.exists()"); ("exists", LAYER_CONTENTS_FILE); ("err", "MissingLayerContentsFile");
    ("call", "LayerContents::load")].
 Definition layercontents_load_skeleton :=
   [("exists", LAYER_CONTENTS_FILE); ("read_plist", LAYER_CONTENTS_FILE); ("err", "ParsePlist");
    ("guard", "filter.should_load"); ("call", "Layer::load_impl <path>"); ("err", "Layer");
-   ("guard", "!filter.includes_default_layer"); ("err", "MissingDefaultLayer")].
+   ("guard", "!filter.includes_default_layer() && !layers.iter().any(Layer::is_default)"); ("err", "MissingDefaultLayer")].
 Definition layer_load_skeleton :=
   [("exists", CONTENTS_FILE); ("err", "MissingContentsFile"); ("read_plist", CONTENTS_FILE); ("err", "ParsePlist");
    ("call", "Glyph::load_with_names <glyph_path>"); ("err", "Glyph");
